@@ -12,6 +12,7 @@ import (
 	"os"
 	"path/filepath"
 	"runtime/debug"
+	"runtime/pprof"
 	"strconv"
 	"strings"
 	"time"
@@ -589,6 +590,11 @@ func run(c *lib.Ctx) {
 	silence()
 	ctx = c
 	tmpRoot = c.TmpDir
+	if pf := os.Getenv("VERIF_C12_PROF"); pf != "" {
+		f, _ := os.Create(fmt.Sprintf("%s.%d", pf, c.ShardI))
+		_ = pprof.StartCPUProfile(f)
+		defer pprof.StopCPUProfile()
+	}
 	cfgs := configs(c.Quick())
 	depth := depthFor(c.Quick())
 	if s := os.Getenv("VERIF_C12_DEPTH"); s != "" {
